@@ -116,6 +116,11 @@ C11_NothingOverdue(s) ==
     /\ \A i \in 1..Len(s.shards) : s.shards[i].status = SCompleted => ShardEnd(s.shards[i]) >= s.h
     /\ \A i \in 1..Len(s.metas) : s.metas[i].created + s.metas[i].dur >= s.h
 
+\* "when a model's last shard goes, the order and the data model disappear too": no fully stored order outlives its data
+\* model (an order is a reference to the model it stored a version of: one without a model is a dangling reference)
+C11_OrderGoesWithModel(s) ==
+    \A i \in 1..Len(s.orders) : s.orders[i].status = OCompleted => HasMeta(s, s.orders[i].data)
+
 (* C12 state part: a handed-over, unfinished order is always scheduled for re-examination *)
 Unfinished(s, o) ==
     \/ o.status = ODataReady
